@@ -235,6 +235,36 @@ pub fn run(out: &mut Out, seed: u64, n_seq: usize, n_par: usize, threads: usize)
             }
         }
     }
+    // (f) after abuse: one thread evaluates pathological inputs far beyond ordinary sizes, over and over (1100 nested implicit
+    // products, brackets, signs, calls; thousands of terms) - whatever the outcome - and then every key of the pool: a limit that is
+    // consumed, a counter that is not rolled back on an error path, a buffer that keeps growing would show in the ordinary calls after
+    if out.profile == "release" {
+        let abuse: Vec<String> = vec![format!("2{}", "(1)".repeat(1100)), format!("{}1{}", "(".repeat(1100), ")".repeat(1100)), format!("{}1", "-".repeat(1100)),
+                                      format!("1{}", "+1".repeat(1500)), format!("{}1{}", "abs(".repeat(600), ")".repeat(600)), format!("2{}", "!".repeat(1100)),
+                                      format!("{}1{}", "max(1,".repeat(500), ")".repeat(500)), format!("2{}", "(1)".repeat(1100)) + ")", format!("{}1", "(".repeat(1100))];
+        let reps = if n_par >= 100000 { 3000 } else { 1100 };
+        let bad: Vec<(usize, String)> = std::thread::scope(|sc| {
+            std::thread::Builder::new().stack_size(1 << 30).spawn_scoped(sc, || {
+                for a in &abuse {
+                    for e in ["f64"] {
+                        let ph = crate::call::default_placeholder(e);
+                        for _ in 0..reps { let _ = call(e, a, &ph); }
+                    }
+                }
+                let mut v = Vec::new();
+                for (i, k) in pool.iter().enumerate() {
+                    let (o, _) = call(k.e, &k.expr, &k.ph);
+                    if o.canon() != iso[i] { v.push((i, o.canon())); }
+                }
+                v
+            }).unwrap().join().unwrap()
+        });
+        out.stats.calls += (abuse.len() * reps + pool.len()) as u64;
+        for (i, canon) in bad {
+            let k = &pool[i];
+            out.finding("impure", k.e, &k.expr, &k.ph, &format!("the outcome of an isolated first-time evaluation: {}", iso[i]), &format!("{} (after {} evaluations of each of {} pathological inputs on the same thread)", canon, reps, abuse.len()), json!({"phase": "after-abuse"}));
+        }
+    }
     for k in 0..pool.len() { let key = h64(&(pool[k].e, &pool[k].expr, pool[k].ph.canon())); out.stats.distinct.insert(key); out.stats.nontrivial.insert(key); }
     out.stats.samples.push(json!({"keys": pool.len(), "example_key": {"e": pool[1].e, "expr": pool[1].expr, "ph": pool[1].ph.show()}, "sequential_calls": n_seq, "concurrent_calls": per * threads, "threads": threads}));
 }
